@@ -430,6 +430,7 @@ type verdict struct {
 	class     string // outcome class for the coverage tables
 	modelBug  string // non-empty: analyse() and refage.Dearmor disagree
 	reason    string // first deviation of the text from the grammar, "valid" if none
+	inModel   bool   // the acceptance model accepts the text (limits included)
 }
 
 // judge decides one execution: the reader was given text and delivered out
@@ -496,6 +497,7 @@ func judgeFirst(text, out []byte, err error) (v verdict) {
 		reason = "unclassified"
 	}
 	v.reason = reasonOr(reason, "valid")
+	v.inModel = inModel
 
 	if v.accepted {
 		switch {
